@@ -824,7 +824,7 @@ theorem checkObsOnly_sound {s : State} {op : Op} {st : MSt} (hr : Rel st s)
 
 theorem observe_eq {s s' : State} {op : Op} {out : Out} (e : step s op = (s', out)) :
     observe s op = ⟨isPanicStatus out.status, isBadOpStatus out.status, verdictOf op out, valShown out.out,
-      s'.mem.log.drop s.mem.log.length, observeSlots s'⟩ := by
+      s'.mem.log.drop s.mem.log.length, observeSlots s', cbToksFor s op⟩ := by
   simp [observe, e]
 
 theorem k4_badOp {pre : List (Nat × SlotObs)} {op : Op} {o : Obs} (hb : o.badOp = true) : checkK4 pre op o = [] := by
